@@ -20,7 +20,7 @@ def correspondence(res, tier, seed):
 
 ADDITIVE = [("LinearScaling", "tas", {}), ("DeltaChange", "tas", {}), ("QuantileMapping", "tas", {}), ("QuantileMapping", "tas", dict(mapping_type="nonparametric")),
             ("ScaledDistributionMapping", "tas", {}), ("CDFt", "tas", {}), ("ECDFM", "tas", {}), ("QuantileDeltaMapping", "tas", {}), ("ISIMIP", "tas", {})]
-# non-default option values under which the property is claimed all the same (quick: two per run, thorough: all)
+# non-default option values under which the property is claimed all the same (quick: the first and one more per run, thorough: all)
 VARIANTS = [("ISIMIP", "tas", dict(event_likelihood_adjustment=True)), ("ISIMIP", "tas", dict(nonparametric_qm=True)), ("ISIMIP", "psl", {}), ("ISIMIP", "rlds", {}),
             ("ISIMIP", "psl", dict(event_likelihood_adjustment=True)), ("ISIMIP", "tas", dict(detrending=False)),
             ("QuantileDeltaMapping", "tas", dict(cdf_threshold=1e-6)), ("CDFt", "tas", dict(ecdf_method="step_function", iecdf_method="inverted_cdf")),
@@ -36,7 +36,7 @@ def search(res, tier, seed, deep=False):
         res.witness(dict(component="apply_location(cm_future + c)", statement=stmt, input=inp, observed=obs, expected="C02", **{"class": cls_}))
     rounds = 1 if tier == "quick" else 4
     for rnd in range(rounds):
-        for (name, var, over) in ADDITIVE + MULT + (VARIANTS if tier != "quick" else r.sample(VARIANTS, 2)):
+        for (name, var, over) in ADDITIVE + MULT + (VARIANTS if tier != "quick" else [VARIANTS[0]] + r.sample(VARIANTS[1:], 1)):
             mult = (name, var, over) in MULT
             modes = ["none", "days"] + (["years"] if name in ("CDFt", "QuantileDeltaMapping") else [])
             if tier == "quick":
